@@ -76,6 +76,27 @@ AREA_USES = ['SUM({a})', 'SUMIF({a},">0")', 'SUMIF({a},">0",{b})', 'SUMIF({b},">
 ODD_AREA_FORMULAS = ['=' + u.format(a=a, b=b) for u in AREA_USES for a in ODD_AREAS for b in ('A2:C2', 'A:C', 'C2:A2', a)]
 
 
+# every argument position of every supported function takes, in turn, an argument of every kind (the other positions keep an ordinary one)
+ARG_KINDS = ['1', '-2.5', '0', '"x"', '""', 'TRUE', 'A1', 'Z99', 'A1:C1', 'A3:A5', 'A3:B5', 'A:A', 'A:B', 'S2!A1', 'S2!A1:B2', "'my sheet'!B:B", '$A$1', '$A$1:$B$2', 'A1%',
+             '-A1', '(A1)', '1/0', 'SUM(A1:C1)', 'IF(A1>1,A1:C1,B1)', 'DATE(2024,1,2)', '"#N/A"', 'A1:A1', '""&A2', 'A1=1', 'TODAY()', 'INDEX(A3:B5,0,1)', 'IFERROR(A3:A5,0)',
+             '1e308*10', '"2024-01-15"', '">"&A1', '"a*"', 'A2', 'J8', 'XFD1', 'A1048576', 'A1:XFD1', '-"5"', '(A3:A5)', 'A3:A5&"x"']
+
+
+def arg_sweep():
+    out = []
+    for fn, (counts, args) in c05.ARITY.items():
+        for n in sorted({min(c for c in counts if c > 0) if any(c > 0 for c in counts) else 0, max(c for c in counts if c <= len(args))}):
+            if n == 0:
+                continue
+            base = list(args[:n])
+            for i in range(n):
+                for kind in ARG_KINDS:
+                    a = list(base)
+                    a[i] = kind
+                    out.append(f'={fn}({",".join(a)})')
+    return list(dict.fromkeys(out))
+
+
 def soup(rng):
     n = rng.randrange(1, 10)
     parts = []
@@ -379,6 +400,13 @@ def plan(tier, seed):
         sh.append({'kind': 'soup', 'n': 500 if q else 4000, 'k': k})
     for k in range(8 if q else 16):
         sh.append({'kind': 'whole', 'n': 12 if q else 250, 'k': k})
+    for k in range(8):
+        sh.append({'kind': 'args', 'part': k, 'parts': 8})
+    # the same whole-workbook workload (hostile titles and constants, file vs class object) in an interpreter whose locale
+    # encoding is not UTF-8: what is written and what is read back must not depend on it
+    for k in range(2 if q else 4):
+        sh.append({'kind': 'whole', 'n': 6 if q else 60, 'k': 100 + k, 'ascii_locale': True,
+                   '_env': {'LC_ALL': 'C', 'LANG': 'C', 'PYTHONUTF8': '0', 'PYTHONCOERCECLOCALE': '0'}})
     return sh
 
 
@@ -399,6 +427,15 @@ def run_shard(shard, ctx):
         items += [(f, 'odd-area') for f in odd[:240 if ctx.tier == 'quick' else len(odd)]]
         judge_formulas(ctx, items, 'deg')
         r.sample({'degenerate': DEGENERATE[:12]})
+    elif k == 'args':
+        import random as _random
+        allf = arg_sweep()
+        _random.Random(ctx.seed).shuffle(allf)
+        if ctx.tier == 'quick':
+            allf = allf[:1600]
+        items = [(f, 'arg-kind') for i, f in enumerate(allf) if i % shard['parts'] == shard['part']]
+        r.count('arg_kind_formulas', len(items))
+        judge_formulas(ctx, items, 'arg')
     elif k == 'nest':
         items = []
         for kind in ('PAR', 'IF', 'IF2', 'SUM', 'IFERROR', 'ROUND', 'NEG', 'MIX', 'LEFTIF'):
